@@ -127,6 +127,8 @@ def run_forked(mod, case):
                 payload = json.dumps(["violation", v.todict()], default=repr)
             except HarnessError as e:
                 payload = json.dumps(["harness", str(e)])
+            except Exception:   # a bug in the model / harness: report it as such, never as a crash of the code under test
+                payload = json.dumps(["harness", traceback.format_exc()])
             os.write(w, payload.encode())
         except BaseException:
             code = 3
